@@ -2,6 +2,7 @@
 split function relies on)."""
 import z3
 from .common import *  # noqa
+from pyvc.contract import REGISTRY
 
 Q = 'py_stringsimjoin.utils.generic_helper.'
 AIT = ArrT(INT, INT)
@@ -427,3 +428,71 @@ class SplitTable(Case):
 
 
 register(Q + 'split_table', [SplitTable()], props=('C10', 'C05'))
+
+
+# split_table on a DataFrame (candidate sets): positional row slices, same columns
+from pyvc.pandas_model import DF as _DF  # noqa
+
+
+class SplitFrame(Case):
+    name = 'frame'
+    params = OD([('table', _DF), ('num_splits', INT)])
+    returns = ListT(_DF)
+    locals = {'splits': ListT(_DF)}
+
+    def requires(self, c):
+        k, L = c['num_splits'], ln(rec_field(c.p('table'), 'rows'))
+        return [('at-least-one-split', k >= 1), ('domain', z3.And(k <= S.MAXTOK, L <= S.MAXTOK))]
+
+    @staticmethod
+    def _terms(c, js):
+        # same arithmetic as the array case: reuse its term construction with the row list as the table
+        class Shim(object):
+            pass
+        sh = Shim()
+        sh.fp, sh.ex = c.fp, c.ex
+        rows = rec_field(c.p('table'), 'rows')
+        sh.p = lambda name: rows if name == 'table' else c.p(name)
+        sh.__class__.__getitem__ = lambda self, name: c[name]
+        return SplitTable._terms(sh, js)
+
+    @staticmethod
+    def facts(c, splits, upto):
+        k, tbl = c['num_splits'], c.p('table')
+        rows, index = rec_field(tbl, 'rows'), rec_field(tbl, 'index')
+        L = ln(rows)
+        b = lambda j: S.split_bnd(j, k, L)
+        p, j = ints('p j')
+        lt = ListT(_DF)
+        chunk = lambda q: V(_DF, L_get(lt, splits.t, q))
+        crow = lambda q: rec_field(chunk(q), 'rows')
+        cidx = lambda q: rec_field(chunk(q), 'index')
+        return [
+            ('count', L_len(lt, splits.t) == upto),
+            ('start-at-zero', b(ival(0)) == 0),
+            ('end-at-length', b(k) == L),
+            ('monotone', FA([p], z3.Implies(z3.And(p >= 0, p < upto), z3.And(b(p) <= b(p + 1), b(p) >= 0, b(p + 1) <= L)),
+                            [b(p)])),
+            ('chunk-shape', FA([p], z3.Implies(z3.And(p >= 0, p < upto), z3.And(
+                ln(crow(p)) == b(p + 1) - b(p), ln(cidx(p)) == b(p + 1) - b(p),
+                R_get(_DF, chunk(p).t, 'cols') == R_get(_DF, tbl.t, 'cols'),
+                R_get(_DF, chunk(p).t, 'dtypes') == R_get(_DF, tbl.t, 'dtypes'))), [L_get(lt, splits.t, p)])),
+            ('chunk-rows-are-slices', FA([p, j], z3.Implies(z3.And(p >= 0, p < upto, j >= 0, j < b(p + 1) - b(p)),
+                                                            at(crow(p), j) == at(rows, b(p) + j)), [at(crow(p), j)])),
+            ('chunk-index-labels-are-slices', FA([p, j], z3.Implies(
+                z3.And(p >= 0, p < upto, j >= 0, j < b(p + 1) - b(p)),
+                at(cidx(p), j) == at(index, b(p) + j)), [at(cidx(p), j)])),
+        ]
+
+    def _inv(c):
+        k = c['num_splits']
+        c.extra.extend(SplitFrame._terms(c, [ival(0), c.i, c.i + 1, k]))
+        return SplitFrame.facts(c, c.v('splits'), c.i)
+
+    loops = {'0': LoopSpec(_inv)}
+
+    def ensures(self, c, res):
+        return SplitFrame.facts(c, res, c['num_splits'])
+
+
+REGISTRY[Q + 'split_table'].cases.append(SplitFrame())
